@@ -428,7 +428,7 @@ class StdlibCase(pfbase.CfgCase):
                 if self.native:
                     text = pfbase.native_pformat(self.value, w, rw)
                 else:
-                    text = pfbase.stream_text(pfbase.sdocs(self.value, w, rw, False))
+                    text = pfbase.ptext(self.value, w, rw)
             except Exception as e:
                 exc = type(e).__name__
                 return self.fail('C07:pformat-raises-%s:%s' % (exc, self.kind),
